@@ -119,7 +119,8 @@ Verdict(sc, atts) == VerdictFrom(sc, atts, 1)
 
 -----------------------------------------------------------------------------
 (* MODEL: the re-send state machine, one operator per real step                 *)
-(*   st = [pc, method, target, hasBody, cursor, used, bodyPos, left, atts, outcome]                  *)
+(*   st = [pc, method, target, hasBody, cursor, used, bodyPos, left, atts, wires, outcome]           *)
+(*   atts = what the peer observed per attempt, wires = the symbols written per attempt                 *)
 (*   pc in {"enter", "send", "reply", "done"}; bodyPos = PosNone | PosFailed (_FAILEDTELL) | PosAt(n)  *)
 
 PosNone == [k |-> "None", v |-> 0]
@@ -136,7 +137,7 @@ ReqOf(sc, st, chunks) ==
 
 InitState(sc) == [pc |-> "enter", method |-> sc.method, target |-> <<"a">>, hasBody |-> sc.kind # "none",
                   cursor |-> sc.start, used |-> FALSE, bodyPos |-> PosNone, left |-> sc.hist,
-                  atts |-> <<>>, outcome |-> "running"]
+                  atts |-> <<>>, wires |-> <<>>, outcome |-> "running"]
 
 Fail(st, what) == [st EXCEPT !.pc = "done", !.outcome = what]
 
@@ -182,6 +183,7 @@ Send(sc, st) ==
     LET k == IF st.hasBody THEN sc.kind ELSE "none" IN
     [st EXCEPT !.pc = "reply",
                !.atts = Append(st.atts, Observe(WireOf(sc, st))),
+               !.wires = Append(st.wires, WireOf(sc, st)),
                !.cursor = IF k \in FileLike THEN Len(sc.content) ELSE st.cursor,
                !.used = IF k = "gen" THEN TRUE ELSE st.used]
 
@@ -212,6 +214,10 @@ SameRun(D, sc, atts, outcome) ==
     /\ p.outcome = outcome
     /\ Len(p.atts) = Len(atts)
     /\ \A j \in 1..Len(atts) : Proj(p.atts[j]) = Proj(atts[j])
+
+\* stronger, soft: the bytes of every attempt are the model's canonical serialisation (header order, chunk boundaries)
+SameBytes(D, sc, raws) ==
+    LET p == Predict(D, sc) IN Len(p.wires) = Len(raws) /\ \A j \in 1..Len(raws) : p.wires[j] = raws[j]
 
 -----------------------------------------------------------------------------
 (* Signature of the recorded defects: the classes in which the deviations may break BodyIdentical  *)
